@@ -107,6 +107,7 @@ type trCtx struct {
 	statePack    func() string                                  // callback: the record of the captured variables, first component of every result
 	stateVars    []*types.Var                                   // callback: the captured variables
 	nmark        int
+	aliases      map[types.Object]*trAlias // local variables that point into a map entry (trans_alias.go)
 	inCallback   bool                                           // inside a closure that runs many times: untranslated calls are FUNCTION parameters
 	nilParamHook func(e ast.Expr, op token.Token) (string, bool) // `param == nil` for a pointer parameter read as a value
 }
